@@ -3,13 +3,14 @@ import json
 import base64
 import random
 
-from .. import casing, common as c, corpus, l2, translate
+from .. import casing, common as c, corpus, l2, translate, rs2lean
 
 THEOREMS = [("Sylvia.Thm.C02", "C02." + t) for t in
             ["bindArgs_pairUp", "dispatch_exact", "dispatch_exact_struct", "error_conversion", "parts_faithful"]] + \
            [("Sylvia.Thm.C03", "C03.wrapper_accepts_encoded"), ("Sylvia.Thm.C05Gen", "C05.parts_faithful_closed"),
             ("Sylvia.Thm.Obl.Published", "Obl.published_rule_is_wire_rule"),
-            ("Sylvia.Thm.Obl.T.ctx_tables_agree", "Obl.ctx_tables_agree"), ("Sylvia.Thm.Obl.T.result_and_leg", "Obl.result_and_leg")]
+            ("Sylvia.Thm.Obl.T.ctx_tables_agree", "Obl.ctx_tables_agree"), ("Sylvia.Thm.Obl.T.result_and_leg", "Obl.result_and_leg")] + \
+           [("Sylvia.Thm.CtxFn", "CtxFn." + t) for t in ["exec_from", "instantiate_from", "query_from", "sudo_from", "migrate_from"]]
 ADDR = "cosmwasm1jpev2csrppg792t22rn8z8uew8h3sjcpglcd0qv9g8gj8ky922tscp8avs"
 
 
@@ -46,6 +47,11 @@ def run(ctx):
     ctx.assumptions += ["handlers are the corpus' echo handlers (report who ran, with what, in which context; fail on demand)",
                         "no-duplicate-call is structural in the model (one Call per outcome) and observed through the single `ran`/`stored` marker in the implementation"]
     translate.regenerate()
+    # function translator: the context types of sylvia/src/ctx.rs and their From<tuple> conversions -> Extracted/CtxFns.lean
+    ctx_problems = rs2lean.regenerate("ctx")
+    ctx.cov["function_translator_ctx"] = {"source": "sylvia/src/ctx.rs", "problems": ctx_problems}
+    if ctx_problems:
+        ctx.obligation_failed("function-translator(ctx)", "; ".join(ctx_problems)[:1500])
     c.prove(ctx, sorted({m for m, _ in THEOREMS}), THEOREMS)
     progs, exes = l2.get_corpus(ctx)
     rng = random.Random(ctx.seed * 977 + 2)
